@@ -98,6 +98,10 @@ func checkLabelCoverage(s *simkit.Sim, ctx context.Context, who string, srvr sto
 	}
 	m0 := mark()
 	nresp, err := srvr.LabelNames(ctx, &storepb.LabelNamesRequest{Start: q.MinT, End: q.MaxT, Matchers: toPBMatchers(q.Matchers), WithoutReplicaLabels: q.Without})
+	if err == nil && len(nresp.Warnings) > 0 {
+		// a proxy turns the failure of one store into a warning (partial response): the answer is incomplete
+		err = fmt.Errorf("partial response: %v", nresp.Warnings)
+	}
 	if err != nil {
 		if changed(m0) {
 			s.Probe("c07.labelnames_failed_under_fault")
@@ -118,6 +122,9 @@ func checkLabelCoverage(s *simkit.Sim, ctx context.Context, who string, srvr sto
 	for _, n := range simkit.SortedKeys(seenNames) {
 		m1 := mark()
 		vresp, err := srvr.LabelValues(ctx, &storepb.LabelValuesRequest{Label: n, Start: q.MinT, End: q.MaxT, Matchers: toPBMatchers(q.Matchers), WithoutReplicaLabels: q.Without})
+		if err == nil && len(vresp.Warnings) > 0 {
+			err = fmt.Errorf("partial response: %v", vresp.Warnings)
+		}
 		if err != nil {
 			if changed(m1) {
 				s.Probe("c07.labelvalues_failed_under_fault")
@@ -206,11 +213,22 @@ func runC07(x *simkit.Exec) {
 	x.Nontrivial = nonEmpty > 0
 	detail := "blocks=" + ds.describe()
 
+	// In half of the runs the gateway clients ask through a ProxyStore placed over the gateway and the
+	// TSDB store (what a querier does): the proxy merges the label names and values of the stores it
+	// selects, and those have to cover the series it returns for the same request.
+	viaProxy := x.Bool("viaProxy", 1, 2)
+	proxyLazy := x.Bool("viaProxy.lazy", 1, 2)
+	var proxy *store.ProxyStore
 	runClients(x, f, "c07", cfg, nclients, faults, func(s *simkit.Sim, g *gateway) func() {
 		// the TSDB block is opened and closed inside the bubble (its WaitGroup belongs to the bubble)
 		tsdbStore, closeTSDB := openTSDBStore(x, f, tsdbFrame)
 		if tsdbStore == nil {
 			return closeTSDB
+		}
+		if viaProxy {
+			proxy = newLocalProxy(proxyLazy,
+				newLocalClient("gateway", g.store, g.store.LabelSet, g.store.TimeRange),
+				newLocalClient("tsdb", tsdbStore, tsdbStore.LabelSet, tsdbStore.TimeRange))
 		}
 		// the local TSDB store has no seams: its client is one more task, checked sequentially
 		s.Go("tsdb-client", func() {
@@ -249,6 +267,23 @@ func runC07(x *simkit.Exec) {
 				_, err := g.store.LabelNames(ctx, &storepb.LabelNamesRequest{Start: n.MinT, End: n.MaxT, Matchers: toPBMatchers(n.Matchers)})
 				s.Note("%s narrow LabelNames err=%v", actor, err != nil)
 				x.Probe("c07.narrow_label_calls_first")
+			}
+			if proxy != nil {
+				m0 := g.bkt.injected.Load()
+				resp, _ := callSeries(ctx, proxy, q)
+				s.Note("%s q%d through the proxy -> %d series err=%v", actor, qi, len(resp.Series), resp.Err != nil)
+				if resp.Err != nil || len(resp.Warnings) > 0 {
+					if g.bkt.injected.Load() != m0 {
+						s.Probe("c07.proxy_series_failed_under_fault")
+					} else {
+						s.Probe("c07.proxy_series_failed_without_fault:" + errClass(resp.Err))
+					}
+					continue
+				}
+				s.Probe("c07.proxy_series_checked")
+				checkLabelCoverage(s, ctx, "proxy", proxy, q, resp, g.bkt.injected.Load, func(m int64) bool { return g.bkt.injected.Load() != m },
+					fmt.Sprintf("proxy (lazy=%v) over gateway and TSDB store; cfg=%+v\n%s", proxyLazy, cfg, detail))
+				continue
 			}
 			resp, _, faulted := g.series(ctx, q, nil)
 			s.Note("%s q%d -> %d series err=%v", actor, qi, len(resp.Series), resp.Err != nil)
